@@ -18,7 +18,7 @@ import (
 
 // ---- targets: which of the modelled syntax features esbuild assumes the target understands
 
-var allFeats = []string{"nesting", "is", "where", "not-list", "inset", "hex-alpha", "rgb-space", "media-range"}
+var allFeats = []string{"nesting", "is", "where", "not-list", "inset", "hex-alpha", "rgb-space", "media-range", "math-fn"}
 
 type target struct {
 	name    string
@@ -330,6 +330,14 @@ func checkCases(r *core.Run, voc *Vocab, cases []*Case, stats *stats) {
 			// every chain meets a target without nesting, with and without :is()
 			cfgs = []config{{"off", []string{"chrome50", "firefox60"}[rng.Intn(2)], "css"}, {"all", "chrome90", "css"}}
 		}
+		if c.Family == "seq-d" {
+			// shorthand collapsing is part of syntax minification: every sequence meets it with and without an old target
+			old := targets[1+rng.Intn(3)].name
+			cfgs = []config{{"all", "none", "css"}, {"syntax", old, "css"}, {"all", []string{"chrome90", "chrome130"}[rng.Intn(2)], "css"}}
+			if r.Thorough() {
+				cfgs = append(cfgs, config{"all", old, "global-css"}, config{"off", old, "css"})
+			}
+		}
 		if c.Family == "regress" {
 			w.style = Style{Group: true}
 			cfgs = nil
@@ -620,6 +628,15 @@ func Run(r *core.Run) {
 			impCases = runImportTLC(r, graphs, r.Pick(2, 1))
 		}()
 	}
+	// the sequence families of CssSeq.tla: model-checked, labelled, a label-first covering sample computed by CssGen
+	var seqCases []*Case
+	if !skipMC || os.Getenv("C12_SEQ") != "" {
+		wg.Add(1)
+		go func() {
+			defer wg.Done()
+			seqCases = runSeq(r)
+		}()
+	}
 	g := &gen{voc: voc, rng: rand.New(rand.NewSource(r.Seed))}
 	nSheets := r.Pick(240, 3500)
 	if v := os.Getenv("C12_N"); v != "" { // development only
@@ -666,6 +683,7 @@ func Run(r *core.Run) {
 		mcCases = append(keep, casc...)
 	}
 	cases = append(cases, mcCases...)
+	cases = append(cases, seqCases...)
 	t0 = time.Now()
 	checkCases(r, voc, cases, st)
 	r.Logf("replayed %d cases (%d outputs) in %.1fs", st.cases, st.outputs, time.Since(t0).Seconds())
